@@ -119,20 +119,22 @@ static void runCase(uint64_t caseId, Rng rng, size_t nsteps, unsigned mode, std:
 		cfg.frequencyMultiplier = CR{m.first, m.second};
 		if (rng.chance(1, 4)) cfg.name = "dclk" + std::to_string(i);
 		if (rng.chance(1, 4)) cfg.resetName = "drst" + std::to_string(i);
-		auto ptrig = clocks[parent].getClk()->getTriggerEvent();
-		if (rng.chance(1, 2)) {
-			auto t = pickTrig();
-			if (mode == 1) {
-				// keep the derived clock edge-aligned with whatever pin it may share: same edge as the parent or dual edge
-				t = rng.chance(1, 2) ? ptrig : hlim::Clock::TriggerEvent::RISING_AND_FALLING;
-				if (ptrig == hlim::Clock::TriggerEvent::RISING_AND_FALLING) t = rng.chance(1, 2) ? hlim::Clock::TriggerEvent::FALLING : ptrig;
-			}
-			cfg.triggerEvent = t;
-		}
+		if (rng.chance(1, 2)) cfg.triggerEvent = pickTrig();
 		if (rng.chance(1, 3)) cfg.resetType = pickRst();
 		if (rng.chance(1, 3)) cfg.resetActive = pickAct();
 		// applyConfig insists on: resetType != NONE || initializeRegs
+		if (cfg.resetType && *cfg.resetType == hlim::RegisterAttributes::ResetType::NONE && !rng.chance(1, 8)) cfg.initializeRegs = true;
 		clocks.push_back(clocks[parent].deriveClock(cfg));
+		if (mode == 1) {
+			// keep the derived clock edge-aligned with the pin it ends up sharing: the clock signal starts high iff the pin source is
+			// rising-edge triggered, so on a shared pin only the source's edge (falling for a dual-edge source) or both edges are aligned
+			hlim::Clock *c = clocks.back().getClk();
+			hlim::Clock *src = c->getClockPinSource();
+			if (src != c && c->getTriggerEvent() != hlim::Clock::TriggerEvent::RISING_AND_FALLING) {
+				bool srcRising = src->getTriggerEvent() == hlim::Clock::TriggerEvent::RISING;
+				c->setTriggerEvent(srcRising ? hlim::Clock::TriggerEvent::RISING : hlim::Clock::TriggerEvent::FALLING);
+			}
+		}
 	}
 
 	// ---------------- register network ----------------
